@@ -48,17 +48,23 @@ func checkIdentity(in *graph.Instance, wrap *graph.WrapPP) (labels []string, non
 	}
 	// by-name lookups (also creates lazies that nobody needed: legitimate)
 	lookup := map[string]any{}
+	lookupFailed := false
 	for _, c := range g.Pop {
 		var got any
 		var lerr error
 		if p := kit.Protect(func() { got, lerr = in.Out.App.GetComponentByName(c.Name) }); p != nil {
 			// creating a lazy component after start-up blew up: not an identity question (C07/C09 cover it)
 			labels = append(labels, "lookup-panicked")
-			continue
+			lookupFailed = true
+			break
 		}
 		if lerr != nil {
-			// a lazy component that cannot be created is not C01's business
-			continue
+			// a lazy component that cannot be created is not C01's business. Stop looking things up:
+			// any further lookup may implicitly re-attempt the refused creation (known finding
+			// C03/retry-after-refused-lazy-creation), which is excluded here by construction.
+			kit.Rec.Exclude("retry-after-refused-lazy-creation")
+			lookupFailed = true
+			break
 		}
 		lookup[c.Name] = got
 		tn := ""
@@ -99,7 +105,9 @@ func checkIdentity(in *graph.Instance, wrap *graph.WrapPP) (labels []string, non
 	// GetComponents must agree with the lookups
 	var all []any
 	var aerr error
-	if p := kit.Protect(func() { all, aerr = in.Out.App.GetComponents() }); p != nil {
+	if lookupFailed {
+		aerr = fmt.Errorf("skipped")
+	} else if p := kit.Protect(func() { all, aerr = in.Out.App.GetComponents() }); p != nil {
 		labels = append(labels, "getcomponents-panicked")
 		aerr = fmt.Errorf("panic")
 	}
@@ -148,10 +156,10 @@ func dedup(xs []string) []string {
 
 func runCase(t interface {
 	Fatalf(string, ...any)
-}, s *graph.Scenario, wrapNames map[int]bool) {
+}, s *graph.Scenario, wrapNames map[int]bool, plans map[int]graph.WrapPlan) {
 	in := s.Instantiate()
 	var wrap *graph.WrapPP
-	if len(wrapNames) > 0 {
+	if len(wrapNames) > 0 || len(plans) > 0 {
 		wrap = &graph.WrapPP{Plan: map[string]graph.WrapPlan{}, IDOf: func(c any) int {
 			if id, ok := in.IDs[reflect.ValueOf(c).Pointer()]; ok {
 				return id
@@ -161,6 +169,10 @@ func runCase(t interface {
 		for id := range wrapNames {
 			n, _ := model.NameOf(in.Comps[id])
 			wrap.Plan[n] = graph.WrapPlan{Early: graph.WrapNew}
+		}
+		for id, pl := range plans {
+			n, _ := model.NameOf(in.Comps[id])
+			wrap.Plan[n] = pl
 		}
 		in.Extra = append(in.Extra, wrap)
 	}
@@ -173,6 +185,12 @@ func runCase(t interface {
 		}
 		sort.Strings(w)
 		desc += " earlywrap=" + strings.Join(w, ",")
+		var ps []string
+		for id, pl := range plans {
+			ps = append(ps, fmt.Sprintf("%d:%v", id, pl))
+		}
+		sort.Strings(ps)
+		desc += " plans=" + strings.Join(ps, ",")
 	}
 	if in.Out.Panic != nil {
 		if _, ok := in.Out.Panic.(graph.BudgetExceeded); ok {
@@ -208,17 +226,25 @@ func runCase(t interface {
 func TestIdentity(t *testing.T) {
 	kit.Rec.Rule(rule)
 	rapid.Check(t, func(t *rapid.T) {
-		s := graph.Gen(t, graph.GenOpts{MinNodes: 2, MaxNodes: 6, Variants: "NNLP", Aliases: true})
+		s := graph.Gen(t, graph.GenOpts{MinNodes: 2, MaxNodes: 6, Variants: "NNLP", Aliases: true, Lookups: true})
 		wrapNames := map[int]bool{}
-		if rapid.Bool().Draw(t, "withwrap") {
+		plans := map[int]graph.WrapPlan{}
+		switch rapid.IntRange(0, 2).Draw(t, "wrapmode") {
+		case 1: // consistent early wrapping: start-up is expected to succeed with the wrapper everywhere
 			for i, n := range s.Nodes {
 				// a *T field cannot hold a substitute: only wrap nodes nobody can reference by pointer type
 				if n.Variant != 'N' && rapid.Bool().Draw(t, "wrap") {
 					wrapNames[i] = true
 				}
 			}
+		case 2: // arbitrary wrap timings: start-up may refuse, but if it succeeds identity must hold
+			for i, n := range s.Nodes {
+				if n.Variant != 'N' && rapid.Bool().Draw(t, "wrap") {
+					plans[i] = graph.WrapPlan{Early: rapid.IntRange(0, 1).Draw(t, "e"), Before: rapid.SampledFrom([]int{0, 0, 1}).Draw(t, "b"), After: rapid.IntRange(0, 2).Draw(t, "a")}
+				}
+			}
 		}
-		runCase(t, s, wrapNames)
+		runCase(t, s, wrapNames, plans)
 	})
 }
 
@@ -246,6 +272,6 @@ func TestScale(t *testing.T) {
 			}
 		}
 		graph.DrawOrders(t, s)
-		runCase(t, s, nil)
+		runCase(t, s, nil, nil)
 	})
 }
